@@ -79,6 +79,14 @@ EncodeGroups(hrp, g) ==
       body == lh \o <<49>> \o [i \in 1..Len(g) |-> Charset[g[i] + 1]] \o [i \in 1..6 |-> Charset[chk[i] + 1]]
   IN IF lh = hrp THEN body ELSE ToUpper(body)
 Encode(hrp, b) == EncodeGroups(hrp, ToGroups(b))
+\* the same string with its checksum made for another checksum constant (1 is Bech32; 734539939 = 0x2bc830a3 is Bech32m):
+\* not a Bech32 string, however well-formed it looks
+EncodeGroupsConst(hrp, g, const) ==
+  LET lh == ToLower(hrp)
+      m == Polymod(HrpExpand(lh) \o g \o <<0,0,0,0,0,0>>) ^^ const
+      chk == [p \in 1..6 |-> shiftR(m, 5 * (6 - p)) % 32]
+      body == lh \o <<49>> \o [i \in 1..Len(g) |-> Charset[g[i] + 1]] \o [i \in 1..6 |-> Charset[chk[i] + 1]]
+  IN IF lh = hrp THEN body ELSE ToUpper(body)
 
 AgeHrp == <<97,103,101>>                                            \* "age"
 SecretHrp == <<65,71,69,45,83,69,67,82,69,84,45,75,69,89,45>>       \* "AGE-SECRET-KEY-"
